@@ -35,7 +35,7 @@ class DataContainerYamlWriter(YamlWriterMixin, DataContainerDReprBase):
             if container._manual_heights:
                 _yaml_doc["bin_heights"] = list(map(float, container.data))  # float64 -> float
                 _yaml_doc["underflow"] = float(container.underflow)
-                _yaml_doc["overflow"] = float(container.underflow)
+                _yaml_doc["overflow"] = float(container.overflow)
             else:
                 _yaml_doc["raw_data"] = list(map(float, container.raw_data))  # float64 -> float
         elif _class is IndexedContainer or _class is UnbinnedContainer:
